@@ -15,7 +15,7 @@ GATES1 = {"Dgate": 2, "Sgate": 2, "Rgate": 1, "Xgate": 1, "Zgate": 1, "Fourierga
 GATES2 = {"BSgate": 2, "MZgate": 2, "sMZgate": 2, "S2gate": 2, "CKgate": 1, "CXgate": 1, "CZgate": 1}
 PREPS = {"Vacuum": 0, "Coherent": 2, "Squeezed": 2, "DisplacedSqueezed": 4, "Thermal": 1, "Fock": 1, "Catstate": 1}
 CHANNELS = {"LossChannel": 1, "ThermalLossChannel": 2, "PassiveChannel": 1}
-MEAS = {"MeasureHomodyne": 1, "MeasureFock": 0}
+MEAS = {"MeasureHomodyne": 1, "MeasureFock": 0, "MeasureHeterodyne": 0}
 BACKEND_CLASSES = {
     "gaussian": dict(g1=["Dgate", "Sgate", "Rgate", "Xgate", "Zgate", "Fouriergate"], g2=["BSgate", "MZgate", "S2gate", "sMZgate"],
                      prep=["Vacuum", "Coherent", "Squeezed", "DisplacedSqueezed", "Thermal"],
@@ -78,7 +78,43 @@ def model_par(p):
 
 # ------------------------------------------------------------------ building real programs
 
+_CAT_CACHE = {}
+
+
+def array_par(p):
+    """array-valued parameter from its JSON description: {"arr": nested list (complex entries as {"re":, "im":}),
+    "dtype": "complex"|"float"|"int", "ro": read-only?}  or  {"cat": [a, phi, parity], "which": 0|1|2, ...} = the
+    weights / means / covs of a cat state as BosonicBackend.prepare_cat(.., 'complex', ..) returns them"""
+    if "cat" in p:
+        key = tuple(p["cat"])
+        if key not in _CAT_CACHE:
+            from strawberryfields.backends.bosonicbackend.backend import BosonicBackend
+            h = BosonicBackend()
+            h.begin_circuit(1)
+            _CAT_CACHE[key] = h.prepare_cat(p["cat"][0], p["cat"][1], p["cat"][2], "complex", 1e-12, 2)
+        raw = np.array(_CAT_CACHE[key][p["which"]])
+    else:
+        def conv(x):
+            if isinstance(x, dict):
+                return complex(x["re"], x["im"])
+            if isinstance(x, list):
+                return [conv(y) for y in x]
+            return x
+        raw = np.array(conv(p["arr"]))
+    dt = {"complex": complex, "float": float, "int": int}[p.get("dtype", "float")]
+    a = np.array(raw.real if dt is not complex and np.iscomplexobj(raw) else raw, dtype=dt)
+    if p.get("ro"):
+        a.setflags(write=False)
+    return a
+
+
+def is_array_par(p):
+    return isinstance(p, dict) and ("arr" in p or "cat" in p)
+
+
 def _par(p, prog, free):
+    if is_array_par(p):
+        return array_par(p)
     if isinstance(p, list):          # matrix-valued parameter (PassiveChannel)
         return np.array(p, dtype=float)
     if isinstance(p, dict):
@@ -96,7 +132,7 @@ def _numeric(op):
 
 
 def has_matrix(spec):
-    return any(isinstance(p, list) for sg in spec["segs"] for o in sg for p in o.get("pars", []))
+    return any(isinstance(p, list) or is_array_par(p) for sg in spec["segs"] for o in sg for p in o.get("pars", []))
 
 
 def _append_ops(prog, ops_list, op_cache=None):
